@@ -32,7 +32,7 @@ ASSUMPTIONS = [
     'writer documents that it appends one otherwise)',
     'PAKFILE and GAME_LUMP are never LZMA-flagged (the writer documents that they cannot be); a compressed game lump '
     'is followed by one NUL byte (the reader derives compressed sizes from the next offset minus one)',
-    'contents / surface flag words are generated in 31 bits (bit 31 is no defined flag); static prop flag words '
+    'static prop flag words '
     'within the bits the prop version stores; node/leaf bounds integral (also in v25, see C11); VitaminSource files '
     'leave the lumps that format does not use empty and have non-negative leaf bounds (unsigned in srctools\' table)',
     'parsed content is compared after touching all 21 views in one fixed order on both files, as one rooted graph '
